@@ -9,6 +9,12 @@ type nat =
 | O
 | S of nat
 
+(** val option_map : ('a1 -> 'a2) -> 'a1 option -> 'a2 option **)
+
+let option_map f = function
+| Some a -> Some (f a)
+| None -> None
+
 (** val fst : ('a1 * 'a2) -> 'a1 **)
 
 let fst = function
@@ -88,14 +94,6 @@ module Nat =
 
 module Pos =
  struct
-  type mask =
-  | IsNul
-  | IsPos of positive
-  | IsNeg
- end
-
-module Coq_Pos =
- struct
   (** val succ : positive -> positive **)
 
   let rec succ = function
@@ -149,65 +147,6 @@ module Coq_Pos =
   | XO p -> XI (pred_double p)
   | XH -> XH
 
-  type mask = Pos.mask =
-  | IsNul
-  | IsPos of positive
-  | IsNeg
-
-  (** val succ_double_mask : mask -> mask **)
-
-  let succ_double_mask = function
-  | IsNul -> IsPos XH
-  | IsPos p -> IsPos (XI p)
-  | IsNeg -> IsNeg
-
-  (** val double_mask : mask -> mask **)
-
-  let double_mask = function
-  | IsPos p -> IsPos (XO p)
-  | x0 -> x0
-
-  (** val double_pred_mask : positive -> mask **)
-
-  let double_pred_mask = function
-  | XI p -> IsPos (XO (XO p))
-  | XO p -> IsPos (XO (pred_double p))
-  | XH -> IsNul
-
-  (** val sub_mask : positive -> positive -> mask **)
-
-  let rec sub_mask x y =
-    match x with
-    | XI p ->
-      (match y with
-       | XI q -> double_mask (sub_mask p q)
-       | XO q -> succ_double_mask (sub_mask p q)
-       | XH -> IsPos (XO p))
-    | XO p ->
-      (match y with
-       | XI q -> succ_double_mask (sub_mask_carry p q)
-       | XO q -> double_mask (sub_mask p q)
-       | XH -> IsPos (pred_double p))
-    | XH -> (match y with
-             | XH -> IsNul
-             | _ -> IsNeg)
-
-  (** val sub_mask_carry : positive -> positive -> mask **)
-
-  and sub_mask_carry x y =
-    match x with
-    | XI p ->
-      (match y with
-       | XI q -> succ_double_mask (sub_mask_carry p q)
-       | XO q -> double_mask (sub_mask p q)
-       | XH -> IsPos (pred_double p))
-    | XO p ->
-      (match y with
-       | XI q -> double_mask (sub_mask_carry p q)
-       | XO q -> succ_double_mask (sub_mask_carry p q)
-       | XH -> double_pred_mask p)
-    | XH -> IsNeg
-
   (** val mul : positive -> positive -> positive **)
 
   let rec mul x y =
@@ -259,53 +198,16 @@ module Coq_Pos =
     | XH -> (match q with
              | XH -> true
              | _ -> false)
+
+  (** val of_succ_nat : nat -> positive **)
+
+  let rec of_succ_nat = function
+  | O -> XH
+  | S x -> succ (of_succ_nat x)
  end
 
 module N =
  struct
-  (** val succ_double : n -> n **)
-
-  let succ_double = function
-  | N0 -> Npos XH
-  | Npos p -> Npos (XI p)
-
-  (** val double : n -> n **)
-
-  let double = function
-  | N0 -> N0
-  | Npos p -> Npos (XO p)
-
-  (** val add : n -> n -> n **)
-
-  let add n0 m =
-    match n0 with
-    | N0 -> m
-    | Npos p -> (match m with
-                 | N0 -> n0
-                 | Npos q -> Npos (Coq_Pos.add p q))
-
-  (** val sub : n -> n -> n **)
-
-  let sub n0 m =
-    match n0 with
-    | N0 -> N0
-    | Npos n' ->
-      (match m with
-       | N0 -> n0
-       | Npos m' ->
-         (match Coq_Pos.sub_mask n' m' with
-          | Coq_Pos.IsPos p -> Npos p
-          | _ -> N0))
-
-  (** val mul : n -> n -> n **)
-
-  let mul n0 m =
-    match n0 with
-    | N0 -> N0
-    | Npos p -> (match m with
-                 | N0 -> N0
-                 | Npos q -> Npos (Coq_Pos.mul p q))
-
   (** val compare : n -> n -> comparison **)
 
   let compare n0 m =
@@ -315,7 +217,7 @@ module N =
              | Npos _ -> Lt)
     | Npos n' -> (match m with
                   | N0 -> Gt
-                  | Npos m' -> Coq_Pos.compare n' m')
+                  | Npos m' -> Pos.compare n' m')
 
   (** val eqb : n -> n -> bool **)
 
@@ -326,7 +228,7 @@ module N =
              | Npos _ -> false)
     | Npos p -> (match m with
                  | N0 -> false
-                 | Npos q -> Coq_Pos.eqb p q)
+                 | Npos q -> Pos.eqb p q)
 
   (** val leb : n -> n -> bool **)
 
@@ -342,43 +244,12 @@ module N =
     | Lt -> true
     | _ -> false
 
-  (** val pos_div_eucl : positive -> n -> n * n **)
+  (** val max : n -> n -> n **)
 
-  let rec pos_div_eucl a b =
-    match a with
-    | XI a' ->
-      let (q, r) = pos_div_eucl a' b in
-      let r' = succ_double r in
-      if leb b r' then ((succ_double q), (sub r' b)) else ((double q), r')
-    | XO a' ->
-      let (q, r) = pos_div_eucl a' b in
-      let r' = double r in
-      if leb b r' then ((succ_double q), (sub r' b)) else ((double q), r')
-    | XH ->
-      (match b with
-       | N0 -> (N0, (Npos XH))
-       | Npos p -> (match p with
-                    | XH -> ((Npos XH), N0)
-                    | _ -> (N0, (Npos XH))))
-
-  (** val div_eucl : n -> n -> n * n **)
-
-  let div_eucl a b =
-    match a with
-    | N0 -> (N0, N0)
-    | Npos na -> (match b with
-                  | N0 -> (N0, a)
-                  | Npos _ -> pos_div_eucl na b)
-
-  (** val div : n -> n -> n **)
-
-  let div a b =
-    fst (div_eucl a b)
-
-  (** val modulo : n -> n -> n **)
-
-  let modulo a b =
-    snd (div_eucl a b)
+  let max n0 n' =
+    match compare n0 n' with
+    | Gt -> n0
+    | _ -> n'
  end
 
 module Z =
@@ -395,13 +266,13 @@ module Z =
   let succ_double = function
   | Z0 -> Zpos XH
   | Zpos p -> Zpos (XI p)
-  | Zneg p -> Zneg (Coq_Pos.pred_double p)
+  | Zneg p -> Zneg (Pos.pred_double p)
 
   (** val pred_double : z -> z **)
 
   let pred_double = function
   | Z0 -> Zneg XH
-  | Zpos p -> Zpos (Coq_Pos.pred_double p)
+  | Zpos p -> Zpos (Pos.pred_double p)
   | Zneg p -> Zneg (XI p)
 
   (** val pos_sub : positive -> positive -> z **)
@@ -417,11 +288,11 @@ module Z =
       (match y with
        | XI q -> pred_double (pos_sub p q)
        | XO q -> double (pos_sub p q)
-       | XH -> Zpos (Coq_Pos.pred_double p))
+       | XH -> Zpos (Pos.pred_double p))
     | XH ->
       (match y with
        | XI q -> Zneg (XO q)
-       | XO q -> Zneg (Coq_Pos.pred_double q)
+       | XO q -> Zneg (Pos.pred_double q)
        | XH -> Z0)
 
   (** val add : z -> z -> z **)
@@ -432,13 +303,13 @@ module Z =
     | Zpos x' ->
       (match y with
        | Z0 -> x
-       | Zpos y' -> Zpos (Coq_Pos.add x' y')
+       | Zpos y' -> Zpos (Pos.add x' y')
        | Zneg y' -> pos_sub x' y')
     | Zneg x' ->
       (match y with
        | Z0 -> x
        | Zpos y' -> pos_sub y' x'
-       | Zneg y' -> Zneg (Coq_Pos.add x' y'))
+       | Zneg y' -> Zneg (Pos.add x' y'))
 
   (** val opp : z -> z **)
 
@@ -460,18 +331,18 @@ module Z =
     | Zpos x' ->
       (match y with
        | Z0 -> Z0
-       | Zpos y' -> Zpos (Coq_Pos.mul x' y')
-       | Zneg y' -> Zneg (Coq_Pos.mul x' y'))
+       | Zpos y' -> Zpos (Pos.mul x' y')
+       | Zneg y' -> Zneg (Pos.mul x' y'))
     | Zneg x' ->
       (match y with
        | Z0 -> Z0
-       | Zpos y' -> Zneg (Coq_Pos.mul x' y')
-       | Zneg y' -> Zpos (Coq_Pos.mul x' y'))
+       | Zpos y' -> Zneg (Pos.mul x' y')
+       | Zneg y' -> Zpos (Pos.mul x' y'))
 
   (** val pow_pos : z -> positive -> z **)
 
   let pow_pos z0 =
-    Coq_Pos.iter (mul z0) (Zpos XH)
+    Pos.iter (mul z0) (Zpos XH)
 
   (** val pow : z -> z -> z **)
 
@@ -489,11 +360,11 @@ module Z =
              | Zpos _ -> Lt
              | Zneg _ -> Gt)
     | Zpos x' -> (match y with
-                  | Zpos y' -> Coq_Pos.compare x' y'
+                  | Zpos y' -> Pos.compare x' y'
                   | _ -> Gt)
     | Zneg x' ->
       (match y with
-       | Zneg y' -> compOpp (Coq_Pos.compare x' y')
+       | Zneg y' -> compOpp (Pos.compare x' y')
        | _ -> Lt)
 
   (** val leb : z -> z -> bool **)
@@ -503,6 +374,13 @@ module Z =
     | Gt -> false
     | _ -> true
 
+  (** val ltb : z -> z -> bool **)
+
+  let ltb x y =
+    match compare x y with
+    | Lt -> true
+    | _ -> false
+
   (** val eqb : z -> z -> bool **)
 
   let eqb x y =
@@ -511,17 +389,81 @@ module Z =
              | Z0 -> true
              | _ -> false)
     | Zpos p -> (match y with
-                 | Zpos q -> Coq_Pos.eqb p q
+                 | Zpos q -> Pos.eqb p q
                  | _ -> false)
     | Zneg p -> (match y with
-                 | Zneg q -> Coq_Pos.eqb p q
+                 | Zneg q -> Pos.eqb p q
                  | _ -> false)
+
+  (** val to_N : z -> n **)
+
+  let to_N = function
+  | Zpos p -> Npos p
+  | _ -> N0
+
+  (** val of_nat : nat -> z **)
+
+  let of_nat = function
+  | O -> Z0
+  | S n1 -> Zpos (Pos.of_succ_nat n1)
 
   (** val of_N : n -> z **)
 
   let of_N = function
   | N0 -> Z0
   | Npos p -> Zpos p
+
+  (** val pos_div_eucl : positive -> z -> z * z **)
+
+  let rec pos_div_eucl a b =
+    match a with
+    | XI a' ->
+      let (q, r) = pos_div_eucl a' b in
+      let r' = add (mul (Zpos (XO XH)) r) (Zpos XH) in
+      if ltb r' b
+      then ((mul (Zpos (XO XH)) q), r')
+      else ((add (mul (Zpos (XO XH)) q) (Zpos XH)), (sub r' b))
+    | XO a' ->
+      let (q, r) = pos_div_eucl a' b in
+      let r' = mul (Zpos (XO XH)) r in
+      if ltb r' b
+      then ((mul (Zpos (XO XH)) q), r')
+      else ((add (mul (Zpos (XO XH)) q) (Zpos XH)), (sub r' b))
+    | XH -> if leb (Zpos (XO XH)) b then (Z0, (Zpos XH)) else ((Zpos XH), Z0)
+
+  (** val div_eucl : z -> z -> z * z **)
+
+  let div_eucl a b =
+    match a with
+    | Z0 -> (Z0, Z0)
+    | Zpos a' ->
+      (match b with
+       | Z0 -> (Z0, a)
+       | Zpos _ -> pos_div_eucl a' b
+       | Zneg b' ->
+         let (q, r) = pos_div_eucl a' (Zpos b') in
+         (match r with
+          | Z0 -> ((opp q), Z0)
+          | _ -> ((opp (add q (Zpos XH))), (add b r))))
+    | Zneg a' ->
+      (match b with
+       | Z0 -> (Z0, a)
+       | Zpos _ ->
+         let (q, r) = pos_div_eucl a' b in
+         (match r with
+          | Z0 -> ((opp q), Z0)
+          | _ -> ((opp (add q (Zpos XH))), (sub b r)))
+       | Zneg b' -> let (q, r) = pos_div_eucl a' (Zpos b') in (q, (opp r)))
+
+  (** val div : z -> z -> z **)
+
+  let div a b =
+    let (q, _) = div_eucl a b in q
+
+  (** val modulo : z -> z -> z **)
+
+  let modulo a b =
+    let (_, r) = div_eucl a b in r
  end
 
 (** val map : ('a1 -> 'a2) -> 'a1 list -> 'a2 list **)
@@ -529,6 +471,12 @@ module Z =
 let rec map f = function
 | [] -> []
 | a :: t -> (f a) :: (map f t)
+
+(** val fold_right : ('a2 -> 'a1 -> 'a1) -> 'a1 -> 'a2 list -> 'a1 **)
+
+let rec fold_right f a0 = function
+| [] -> a0
+| b :: t -> f b (fold_right f a0 t)
 
 (** val existsb : ('a1 -> bool) -> 'a1 list -> bool **)
 
@@ -551,6 +499,15 @@ let rec combine l l' =
     (match l' with
      | [] -> []
      | y :: tl' -> (x, y) :: (combine tl tl'))
+
+(** val firstn : nat -> 'a1 list -> 'a1 list **)
+
+let rec firstn n0 l =
+  match n0 with
+  | O -> []
+  | S n1 -> (match l with
+             | [] -> []
+             | a :: l0 -> a :: (firstn n1 l0))
 
 (** val ex_keep :
     (((((nat * n) * z) * z list) * z option) * positive) * bool **)
@@ -575,12 +532,186 @@ let max_int w = function
 let in_rangeb w s v =
   (&&) (Z.leb (min_int w s) v) (Z.leb v (max_int w s))
 
+(** val is_cont : z -> bool **)
+
+let is_cont b =
+  (&&) (Z.leb (Zpos (XO (XO (XO (XO (XO (XO (XO XH)))))))) b)
+    (Z.leb b (Zpos (XI (XI (XI (XI (XI (XI (XO XH)))))))))
+
+(** val is_surrogate : z -> bool **)
+
+let is_surrogate cp =
+  (&&)
+    (Z.leb (Zpos (XO (XO (XO (XO (XO (XO (XO (XO (XO (XO (XO (XI (XI (XO (XI
+      XH)))))))))))))))) cp)
+    (Z.leb cp (Zpos (XI (XI (XI (XI (XI (XI (XI (XI (XI (XI (XI (XI (XI (XO
+      (XI XH)))))))))))))))))
+
+(** val utf8_decode : z list -> z list option **)
+
+let rec utf8_decode = function
+| [] -> Some []
+| b0 :: r ->
+  if (||) (Z.ltb b0 Z0)
+       (Z.ltb (Zpos (XI (XI (XI (XI (XI (XI (XI XH)))))))) b0)
+  then None
+  else if Z.ltb b0 (Zpos (XO (XO (XO (XO (XO (XO (XO XH))))))))
+       then option_map (fun x -> b0 :: x) (utf8_decode r)
+       else if Z.ltb b0 (Zpos (XO (XI (XO (XO (XO (XO (XI XH))))))))
+            then None
+            else if Z.ltb b0 (Zpos (XO (XO (XO (XO (XO (XI (XI XH))))))))
+                 then (match r with
+                       | [] -> None
+                       | b1 :: r1 ->
+                         if is_cont b1
+                         then option_map (fun x ->
+                                (Z.add
+                                  (Z.mul
+                                    (Z.sub b0 (Zpos (XO (XO (XO (XO (XO (XO
+                                      (XI XH))))))))) (Zpos (XO (XO (XO (XO
+                                    (XO (XO XH))))))))
+                                  (Z.sub b1 (Zpos (XO (XO (XO (XO (XO (XO (XO
+                                    XH)))))))))) :: x) (utf8_decode r1)
+                         else None)
+                 else if Z.ltb b0 (Zpos (XO (XO (XO (XO (XI (XI (XI XH))))))))
+                      then (match r with
+                            | [] -> None
+                            | b1 :: l0 ->
+                              (match l0 with
+                               | [] -> None
+                               | b2 :: r2 ->
+                                 let cp =
+                                   Z.add
+                                     (Z.add
+                                       (Z.mul
+                                         (Z.sub b0 (Zpos (XO (XO (XO (XO (XO
+                                           (XI (XI XH))))))))) (Zpos (XO (XO
+                                         (XO (XO (XO (XO (XO (XO (XO (XO (XO
+                                         (XO XH))))))))))))))
+                                       (Z.mul
+                                         (Z.sub b1 (Zpos (XO (XO (XO (XO (XO
+                                           (XO (XO XH))))))))) (Zpos (XO (XO
+                                         (XO (XO (XO (XO XH)))))))))
+                                     (Z.sub b2 (Zpos (XO (XO (XO (XO (XO (XO
+                                       (XO XH)))))))))
+                                 in
+                                 if (&&)
+                                      ((&&) ((&&) (is_cont b1) (is_cont b2))
+                                        (Z.leb (Zpos (XO (XO (XO (XO (XO (XO
+                                          (XO (XO (XO (XO (XO XH))))))))))))
+                                          cp)) (negb (is_surrogate cp))
+                                 then option_map (fun x -> cp :: x)
+                                        (utf8_decode r2)
+                                 else None))
+                      else if Z.ltb b0 (Zpos (XI (XO (XI (XO (XI (XI (XI
+                                XH))))))))
+                           then (match r with
+                                 | [] -> None
+                                 | b1 :: l0 ->
+                                   (match l0 with
+                                    | [] -> None
+                                    | b2 :: l1 ->
+                                      (match l1 with
+                                       | [] -> None
+                                       | b3 :: r3 ->
+                                         let cp =
+                                           Z.add
+                                             (Z.add
+                                               (Z.add
+                                                 (Z.mul
+                                                   (Z.sub b0 (Zpos (XO (XO
+                                                     (XO (XO (XI (XI (XI
+                                                     XH))))))))) (Zpos (XO
+                                                   (XO (XO (XO (XO (XO (XO
+                                                   (XO (XO (XO (XO (XO (XO
+                                                   (XO (XO (XO (XO (XO
+                                                   XH))))))))))))))))))))
+                                                 (Z.mul
+                                                   (Z.sub b1 (Zpos (XO (XO
+                                                     (XO (XO (XO (XO (XO
+                                                     XH))))))))) (Zpos (XO
+                                                   (XO (XO (XO (XO (XO (XO
+                                                   (XO (XO (XO (XO (XO
+                                                   XH)))))))))))))))
+                                               (Z.mul
+                                                 (Z.sub b2 (Zpos (XO (XO (XO
+                                                   (XO (XO (XO (XO XH)))))))))
+                                                 (Zpos (XO (XO (XO (XO (XO
+                                                 (XO XH)))))))))
+                                             (Z.sub b3 (Zpos (XO (XO (XO (XO
+                                               (XO (XO (XO XH)))))))))
+                                         in
+                                         if (&&)
+                                              ((&&)
+                                                ((&&)
+                                                  ((&&) (is_cont b1)
+                                                    (is_cont b2))
+                                                  (is_cont b3))
+                                                (Z.leb (Zpos (XO (XO (XO (XO
+                                                  (XO (XO (XO (XO (XO (XO (XO
+                                                  (XO (XO (XO (XO (XO
+                                                  XH))))))))))))))))) cp))
+                                              (Z.leb cp (Zpos (XI (XI (XI (XI
+                                                (XI (XI (XI (XI (XI (XI (XI
+                                                (XI (XI (XI (XI (XI (XO (XO
+                                                (XO (XO
+                                                XH))))))))))))))))))))))
+                                         then option_map (fun x -> cp :: x)
+                                                (utf8_decode r3)
+                                         else None)))
+                           else None
+
+(** val utf8_ref : z -> z list **)
+
+let utf8_ref cp =
+  if Z.ltb cp (Zpos (XO (XO (XO (XO (XO (XO (XO XH))))))))
+  then cp :: []
+  else if Z.ltb cp (Zpos (XO (XO (XO (XO (XO (XO (XO (XO (XO (XO (XO
+            XH))))))))))))
+       then (Z.add (Zpos (XO (XO (XO (XO (XO (XO (XI XH))))))))
+              (Z.div cp (Zpos (XO (XO (XO (XO (XO (XO XH))))))))) :: (
+              (Z.add (Zpos (XO (XO (XO (XO (XO (XO (XO XH))))))))
+                (Z.modulo cp (Zpos (XO (XO (XO (XO (XO (XO XH))))))))) :: [])
+       else if Z.ltb cp (Zpos (XO (XO (XO (XO (XO (XO (XO (XO (XO (XO (XO (XO
+                 (XO (XO (XO (XO XH)))))))))))))))))
+            then (Z.add (Zpos (XO (XO (XO (XO (XO (XI (XI XH))))))))
+                   (Z.div cp (Zpos (XO (XO (XO (XO (XO (XO (XO (XO (XO (XO
+                     (XO (XO XH))))))))))))))) :: ((Z.add (Zpos (XO (XO (XO
+                                                     (XO (XO (XO (XO
+                                                     XH))))))))
+                                                     (Z.modulo
+                                                       (Z.div cp (Zpos (XO
+                                                         (XO (XO (XO (XO (XO
+                                                         XH)))))))) (Zpos (XO
+                                                       (XO (XO (XO (XO (XO
+                                                       XH))))))))) :: (
+                   (Z.add (Zpos (XO (XO (XO (XO (XO (XO (XO XH))))))))
+                     (Z.modulo cp (Zpos (XO (XO (XO (XO (XO (XO XH))))))))) :: []))
+            else (Z.add (Zpos (XO (XO (XO (XO (XI (XI (XI XH))))))))
+                   (Z.div cp (Zpos (XO (XO (XO (XO (XO (XO (XO (XO (XO (XO
+                     (XO (XO (XO (XO (XO (XO (XO (XO XH))))))))))))))))))))) :: (
+                   (Z.add (Zpos (XO (XO (XO (XO (XO (XO (XO XH))))))))
+                     (Z.modulo
+                       (Z.div cp (Zpos (XO (XO (XO (XO (XO (XO (XO (XO (XO
+                         (XO (XO (XO XH)))))))))))))) (Zpos (XO (XO (XO (XO
+                       (XO (XO XH))))))))) :: ((Z.add (Zpos (XO (XO (XO (XO
+                                                 (XO (XO (XO XH))))))))
+                                                 (Z.modulo
+                                                   (Z.div cp (Zpos (XO (XO
+                                                     (XO (XO (XO (XO
+                                                     XH)))))))) (Zpos (XO (XO
+                                                   (XO (XO (XO (XO XH))))))))) :: (
+                   (Z.add (Zpos (XO (XO (XO (XO (XO (XO (XO XH))))))))
+                     (Z.modulo cp (Zpos (XO (XO (XO (XO (XO (XO XH))))))))) :: [])))
+
 type exc =
 | TypeError
 | ValueError
 | OverflowError
 | AttributeError
-| UnicodeError
+| UnicodeEncodeError
+| UnicodeDecodeError
+| SystemError
 | IndexTooMany
 | IndexNotEnough
 | Unmodelled
@@ -940,80 +1071,37 @@ type senc =
 
 type scfg = { sc_type : stype; sc_enc : senc }
 
-(** val is_surrogate : n -> bool **)
+(** val zs : n list -> z list **)
 
-let is_surrogate c =
+let zs l =
+  map Z.of_N l
+
+(** val ns : z list -> n list **)
+
+let ns l =
+  map Z.to_N l
+
+(** val is_surrogate0 : n -> bool **)
+
+let is_surrogate0 c =
   (&&)
     (N.leb (Npos (XO (XO (XO (XO (XO (XO (XO (XO (XO (XO (XO (XI (XI (XO (XI
       XH)))))))))))))))) c)
     (N.leb c (Npos (XI (XI (XI (XI (XI (XI (XI (XI (XI (XI (XI (XI (XI (XO
       (XI XH)))))))))))))))))
 
+(** val encodable : n -> bool **)
+
+let encodable c =
+  (&&)
+    (N.ltb c (Npos (XO (XO (XO (XO (XO (XO (XO (XO (XO (XO (XO (XO (XO (XO
+      (XO (XO (XI (XO (XO (XO XH))))))))))))))))))))))
+    (negb (is_surrogate0 c))
+
 (** val utf8_enc1 : n -> n list option **)
 
 let utf8_enc1 c =
-  if N.ltb c (Npos (XO (XO (XO (XO (XO (XO (XO XH))))))))
-  then Some (c :: [])
-  else if N.ltb c (Npos (XO (XO (XO (XO (XO (XO (XO (XO (XO (XO (XO
-            XH))))))))))))
-       then Some
-              ((N.add (Npos (XO (XO (XO (XO (XO (XO (XI XH))))))))
-                 (N.div c (Npos (XO (XO (XO (XO (XO (XO XH))))))))) :: (
-              (N.add (Npos (XO (XO (XO (XO (XO (XO (XO XH))))))))
-                (N.modulo c (Npos (XO (XO (XO (XO (XO (XO XH))))))))) :: []))
-       else if N.ltb c (Npos (XO (XO (XO (XO (XO (XO (XO (XO (XO (XO (XO (XO
-                 (XO (XO (XO (XO XH)))))))))))))))))
-            then if is_surrogate c
-                 then None
-                 else Some
-                        ((N.add (Npos (XO (XO (XO (XO (XO (XI (XI XH))))))))
-                           (N.div c (Npos (XO (XO (XO (XO (XO (XO (XO (XO (XO
-                             (XO (XO (XO XH))))))))))))))) :: ((N.add (Npos
-                                                                 (XO (XO (XO
-                                                                 (XO (XO (XO
-                                                                 (XO
-                                                                 XH))))))))
-                                                                 (N.modulo
-                                                                   (N.div c
-                                                                    (Npos (XO
-                                                                    (XO (XO
-                                                                    (XO (XO
-                                                                    (XO
-                                                                    XH))))))))
-                                                                   (Npos (XO
-                                                                   (XO (XO
-                                                                   (XO (XO
-                                                                   (XO
-                                                                   XH))))))))) :: (
-                        (N.add (Npos (XO (XO (XO (XO (XO (XO (XO XH))))))))
-                          (N.modulo c (Npos (XO (XO (XO (XO (XO (XO XH))))))))) :: [])))
-            else if N.ltb c (Npos (XO (XO (XO (XO (XO (XO (XO (XO (XO (XO (XO
-                      (XO (XO (XO (XO (XO (XI (XO (XO (XO
-                      XH)))))))))))))))))))))
-                 then Some
-                        ((N.add (Npos (XO (XO (XO (XO (XI (XI (XI XH))))))))
-                           (N.div c (Npos (XO (XO (XO (XO (XO (XO (XO (XO (XO
-                             (XO (XO (XO (XO (XO (XO (XO (XO (XO
-                             XH))))))))))))))))))))) :: ((N.add (Npos (XO (XO
-                                                           (XO (XO (XO (XO
-                                                           (XO XH))))))))
-                                                           (N.modulo
-                                                             (N.div c (Npos
-                                                               (XO (XO (XO
-                                                               (XO (XO (XO
-                                                               (XO (XO (XO
-                                                               (XO (XO (XO
-                                                               XH))))))))))))))
-                                                             (Npos (XO (XO
-                                                             (XO (XO (XO (XO
-                                                             XH))))))))) :: (
-                        (N.add (Npos (XO (XO (XO (XO (XO (XO (XO XH))))))))
-                          (N.modulo
-                            (N.div c (Npos (XO (XO (XO (XO (XO (XO XH))))))))
-                            (Npos (XO (XO (XO (XO (XO (XO XH))))))))) :: (
-                        (N.add (Npos (XO (XO (XO (XO (XO (XO (XO XH))))))))
-                          (N.modulo c (Npos (XO (XO (XO (XO (XO (XO XH))))))))) :: []))))
-                 else None
+  if encodable c then Some (ns (utf8_ref (Z.of_N c))) else None
 
 (** val utf8_encode : n list -> n list res **)
 
@@ -1025,125 +1113,44 @@ let rec utf8_encode = function
      (match utf8_encode r with
       | Ok t -> Ok (app bs t)
       | Err e -> Err e)
-   | None -> Err UnicodeError)
+   | None -> Err UnicodeEncodeError)
 
-(** val cont : n -> bool **)
+(** val utf8_decode0 : n list -> n list res **)
 
-let cont b =
-  (&&) (N.leb (Npos (XO (XO (XO (XO (XO (XO (XO XH)))))))) b)
-    (N.ltb b (Npos (XO (XO (XO (XO (XO (XO (XI XH)))))))))
-
-(** val rcons : n -> n list res -> n list res **)
-
-let rcons c r =
-  rmap (fun x -> c :: x) r
-
-(** val utf8_decode : n list -> n list res **)
-
-let rec utf8_decode = function
-| [] -> Ok []
-| b0 :: r ->
-  if N.ltb b0 (Npos (XO (XO (XO (XO (XO (XO (XO XH))))))))
-  then rcons b0 (utf8_decode r)
-  else if N.ltb b0 (Npos (XO (XI (XO (XO (XO (XO (XI XH))))))))
-       then Err UnicodeError
-       else if N.ltb b0 (Npos (XO (XO (XO (XO (XO (XI (XI XH))))))))
-            then (match r with
-                  | [] -> Err UnicodeError
-                  | b1 :: r1 ->
-                    if cont b1
-                    then rcons
-                           (N.add
-                             (N.mul
-                               (N.sub b0 (Npos (XO (XO (XO (XO (XO (XO (XI
-                                 XH))))))))) (Npos (XO (XO (XO (XO (XO (XO
-                               XH))))))))
-                             (N.sub b1 (Npos (XO (XO (XO (XO (XO (XO (XO
-                               XH)))))))))) (utf8_decode r1)
-                    else Err UnicodeError)
-            else if N.ltb b0 (Npos (XO (XO (XO (XO (XI (XI (XI XH))))))))
-                 then (match r with
-                       | [] -> Err UnicodeError
-                       | b1 :: l ->
-                         (match l with
-                          | [] -> Err UnicodeError
-                          | b2 :: r2 ->
-                            let c =
-                              N.add
-                                (N.add
-                                  (N.mul
-                                    (N.sub b0 (Npos (XO (XO (XO (XO (XO (XI
-                                      (XI XH))))))))) (Npos (XO (XO (XO (XO
-                                    (XO (XO (XO (XO (XO (XO (XO (XO
-                                    XH))))))))))))))
-                                  (N.mul
-                                    (N.sub b1 (Npos (XO (XO (XO (XO (XO (XO
-                                      (XO XH))))))))) (Npos (XO (XO (XO (XO
-                                    (XO (XO XH)))))))))
-                                (N.sub b2 (Npos (XO (XO (XO (XO (XO (XO (XO
-                                  XH)))))))))
-                            in
-                            if (&&)
-                                 ((&&) ((&&) (cont b1) (cont b2))
-                                   (negb
-                                     (N.ltb c (Npos (XO (XO (XO (XO (XO (XO
-                                       (XO (XO (XO (XO (XO XH)))))))))))))))
-                                 (negb (is_surrogate c))
-                            then rcons c (utf8_decode r2)
-                            else Err UnicodeError))
-                 else if N.ltb b0 (Npos (XI (XO (XI (XO (XI (XI (XI XH))))))))
-                      then (match r with
-                            | [] -> Err UnicodeError
-                            | b1 :: l ->
-                              (match l with
-                               | [] -> Err UnicodeError
-                               | b2 :: l0 ->
-                                 (match l0 with
-                                  | [] -> Err UnicodeError
-                                  | b3 :: r3 ->
-                                    let c =
-                                      N.add
-                                        (N.add
-                                          (N.add
-                                            (N.mul
-                                              (N.sub b0 (Npos (XO (XO (XO (XO
-                                                (XI (XI (XI XH))))))))) (Npos
-                                              (XO (XO (XO (XO (XO (XO (XO (XO
-                                              (XO (XO (XO (XO (XO (XO (XO (XO
-                                              (XO (XO XH))))))))))))))))))))
-                                            (N.mul
-                                              (N.sub b1 (Npos (XO (XO (XO (XO
-                                                (XO (XO (XO XH))))))))) (Npos
-                                              (XO (XO (XO (XO (XO (XO (XO (XO
-                                              (XO (XO (XO (XO XH)))))))))))))))
-                                          (N.mul
-                                            (N.sub b2 (Npos (XO (XO (XO (XO
-                                              (XO (XO (XO XH))))))))) (Npos
-                                            (XO (XO (XO (XO (XO (XO XH)))))))))
-                                        (N.sub b3 (Npos (XO (XO (XO (XO (XO
-                                          (XO (XO XH)))))))))
-                                    in
-                                    if (&&)
-                                         ((&&)
-                                           ((&&) ((&&) (cont b1) (cont b2))
-                                             (cont b3))
-                                           (negb
-                                             (N.ltb c (Npos (XO (XO (XO (XO
-                                               (XO (XO (XO (XO (XO (XO (XO
-                                               (XO (XO (XO (XO (XO
-                                               XH))))))))))))))))))))
-                                         (N.ltb c (Npos (XO (XO (XO (XO (XO
-                                           (XO (XO (XO (XO (XO (XO (XO (XO
-                                           (XO (XO (XO (XI (XO (XO (XO
-                                           XH))))))))))))))))))))))
-                                    then rcons c (utf8_decode r3)
-                                    else Err UnicodeError)))
-                      else Err UnicodeError
+let utf8_decode0 b =
+  match utf8_decode (zs b) with
+  | Some l -> Ok (ns l)
+  | None -> Err UnicodeDecodeError
 
 (** val all_ascii : n list -> bool **)
 
 let all_ascii s =
   forallb (fun c -> N.ltb c (Npos (XO (XO (XO (XO (XO (XO (XO XH))))))))) s
+
+(** val maxchar : n list -> n **)
+
+let maxchar s =
+  fold_right N.max N0 s
+
+type ukind =
+| K1BYTE
+| K2BYTE
+| K4BYTE
+
+(** val kind_of : n list -> ukind **)
+
+let kind_of s =
+  if N.ltb (maxchar s) (Npos (XO (XO (XO (XO (XO (XO (XO (XO XH)))))))))
+  then K1BYTE
+  else if N.ltb (maxchar s) (Npos (XO (XO (XO (XO (XO (XO (XO (XO (XO (XO (XO
+            (XO (XO (XO (XO (XO XH)))))))))))))))))
+       then K2BYTE
+       else K4BYTE
+
+(** val is_ascii : n list -> bool **)
+
+let is_ascii s =
+  N.ltb (maxchar s) (Npos (XO (XO (XO (XO (XO (XO (XO XH))))))))
 
 type codec = { cd_enc : (n list -> n list res);
                cd_dec : (n list -> n list res) }
@@ -1151,13 +1158,20 @@ type codec = { cd_enc : (n list -> n list res);
 (** val ascii_codec : codec **)
 
 let ascii_codec =
-  { cd_enc = (fun s -> if all_ascii s then Ok s else Err UnicodeError);
-    cd_dec = (fun b -> if all_ascii b then Ok b else Err UnicodeError) }
+  { cd_enc = (fun s -> if all_ascii s then Ok s else Err UnicodeEncodeError);
+    cd_dec = (fun b -> if all_ascii b then Ok b else Err UnicodeDecodeError) }
 
 (** val utf8_codec : codec **)
 
 let utf8_codec =
-  { cd_enc = utf8_encode; cd_dec = utf8_decode }
+  { cd_enc = utf8_encode; cd_dec = utf8_decode0 }
+
+(** val str_accepts_unicode : senc -> bool **)
+
+let str_accepts_unicode = function
+| ENone -> false
+| ELatin1 -> false
+| _ -> true
 
 (** val encode_with : senc -> n list -> n list res **)
 
@@ -1167,13 +1181,57 @@ let encode_with e s =
   | EUtf8 -> utf8_codec.cd_enc s
   | _ -> Err TypeError
 
-(** val as_string_and_size : scfg -> pyval -> n list res **)
+(** val py_as_utf8 : n list -> n list res **)
 
-let as_string_and_size sc = function
-| PBytes b -> Ok b
-| PByteArray b -> Ok b
-| PStr s -> encode_with sc.sc_enc s
+let py_as_utf8 =
+  utf8_encode
+
+type api =
+| Full
+| Limited of bool
+
+(** val unicode_asas : api -> senc -> n list -> (n list * nat) res **)
+
+let unicode_asas a e s =
+  match e with
+  | EAscii ->
+    (match a with
+     | Full ->
+       if is_ascii s
+       then rmap (fun b -> (b, (length s))) (py_as_utf8 s)
+       else Err UnicodeEncodeError
+     | Limited checked ->
+       (match py_as_utf8 s with
+        | Ok b ->
+          if Nat.eqb (length s) (length b)
+          then Ok (b, (length b))
+          else Err UnicodeEncodeError
+        | Err x -> if checked then Err x else Err SystemError))
+  | EUtf8 -> rmap (fun b -> (b, (length b))) (py_as_utf8 s)
+  | _ -> Err TypeError
+
+(** val obj_asas : api -> scfg -> pyval -> (n list * nat) res **)
+
+let obj_asas a sc = function
+| PBytes b -> Ok (b, (length b))
+| PByteArray b -> Ok (b, (length b))
+| PStr s ->
+  if str_accepts_unicode sc.sc_enc
+  then unicode_asas a sc.sc_enc s
+  else Err TypeError
 | _ -> Err TypeError
+
+(** val sized : (n list * nat) -> n list res **)
+
+let sized p =
+  if Nat.leb (snd p) (length (fst p))
+  then Ok (firstn (snd p) (fst p))
+  else Err Unmodelled
+
+(** val as_string_and_size_l : api -> scfg -> pyval -> n list res **)
+
+let as_string_and_size_l a sc v =
+  bind (obj_asas a sc v) sized
 
 (** val decode_with : senc -> n list -> n list res **)
 
@@ -1192,10 +1250,15 @@ let from_string_and_size sc b =
   | SByteArray -> Ok (PByteArray b)
   | SUnicode -> rmap (fun x -> PStr x) (decode_with sc.sc_enc b)
 
+(** val string_from_py_l : api -> scfg -> pyval -> cval res **)
+
+let string_from_py_l a sc v =
+  rmap (fun x -> CBytes x) (as_string_and_size_l a sc v)
+
 (** val string_from_py : scfg -> pyval -> cval res **)
 
-let string_from_py sc v =
-  rmap (fun x -> CBytes x) (as_string_and_size sc v)
+let string_from_py =
+  string_from_py_l Full
 
 (** val string_to_py : scfg -> cval -> pyval res **)
 
@@ -1209,10 +1272,15 @@ let rec until_nul = function
 | [] -> []
 | x :: r -> if N.eqb x N0 then [] else x :: (until_nul r)
 
+(** val charp_from_py_l : api -> scfg -> pyval -> cval res **)
+
+let charp_from_py_l a sc v =
+  rmap (fun p -> CBytes (fst p)) (obj_asas a sc v)
+
 (** val charp_from_py : scfg -> pyval -> cval res **)
 
-let charp_from_py sc v =
-  rmap (fun x -> CBytes x) (as_string_and_size sc v)
+let charp_from_py =
+  charp_from_py_l Full
 
 (** val charp_to_py : scfg -> cval -> pyval res **)
 
@@ -1220,20 +1288,42 @@ let charp_to_py sc = function
 | CBytes b -> from_string_and_size sc (until_nul b)
 | _ -> Err Unmodelled
 
+(** val charp_roundtrip_l : api -> scfg -> pyval -> pyval res **)
+
+let charp_roundtrip_l a sc v =
+  bind (charp_from_py_l a sc v) (charp_to_py sc)
+
+(** val string_roundtrip_l : api -> scfg -> pyval -> pyval res **)
+
+let string_roundtrip_l a sc v =
+  bind (string_from_py_l a sc v) (string_to_py sc)
+
 (** val charp_roundtrip : scfg -> pyval -> pyval res **)
 
-let charp_roundtrip sc v =
-  bind (charp_from_py sc v) (charp_to_py sc)
+let charp_roundtrip =
+  charp_roundtrip_l Full
 
 (** val string_roundtrip : scfg -> pyval -> pyval res **)
 
-let string_roundtrip sc v =
-  bind (string_from_py sc v) (string_to_py sc)
+let string_roundtrip =
+  string_roundtrip_l Full
+
+(** val charp_strlen_l : api -> scfg -> pyval -> pyval res **)
+
+let charp_strlen_l a sc v =
+  rmap (fun p -> PInt (Z.of_nat (length (until_nul (fst p)))))
+    (obj_asas a sc v)
+
+(** val string_size_l : api -> scfg -> pyval -> pyval res **)
+
+let string_size_l a sc v =
+  rmap (fun b -> PInt (Z.of_nat (length b))) (as_string_and_size_l a sc v)
 
 type leaf =
 | LInt of z * bool
 | LDouble
 | LString
+| LCharp
 
 type ctype =
 | TLeaf of leaf
@@ -1331,6 +1421,7 @@ let leaf_from_py sc l v =
   | LInt (w, sg) -> int_from_py w sg v
   | LDouble -> double_from_py v
   | LString -> string_from_py sc v
+  | LCharp -> charp_from_py sc v
 
 (** val leaf_to_py : scfg -> leaf -> cval -> pyval res **)
 
@@ -1344,6 +1435,7 @@ let leaf_to_py sc l c =
                 | CDouble d -> Ok (PFloat d)
                 | _ -> Err Unmodelled)
   | LString -> string_to_py sc c
+  | LCharp -> charp_to_py sc c
 
 (** val key_is : n list -> pyval -> bool **)
 
